@@ -478,6 +478,85 @@ hand_filled!(Hfcba, cell_gh_cba_handfilled, [HcVtbl => enable_hc, HbVtbl => enab
 HANDFILL_CELLS = [('cell_gh_none_handfilled', 'Gh', [], [], 'Box', 'handfilled', True), ('cell_gh_a_handfilled', 'Gh', ['Ha'], ['Ha'], 'Box', 'handfilled', True), ('cell_gh_b_handfilled', 'Gh', ['Hb'], ['Hb'], 'Box', 'handfilled', True), ('cell_gh_c_handfilled', 'Gh', ['Hc'], ['Hc'], 'Box', 'handfilled', True), ('cell_gh_ab_handfilled', 'Gh', ['Ha', 'Hb'], ['Ha', 'Hb'], 'Box', 'handfilled', True), ('cell_gh_ba_handfilled', 'Gh', ['Hb', 'Ha'], ['Hb', 'Ha'], 'Box', 'handfilled', True), ('cell_gh_ac_handfilled', 'Gh', ['Ha', 'Hc'], ['Ha', 'Hc'], 'Box', 'handfilled', True), ('cell_gh_ca_handfilled', 'Gh', ['Hc', 'Ha'], ['Hc', 'Ha'], 'Box', 'handfilled', True), ('cell_gh_bc_handfilled', 'Gh', ['Hb', 'Hc'], ['Hb', 'Hc'], 'Box', 'handfilled', True), ('cell_gh_cb_handfilled', 'Gh', ['Hc', 'Hb'], ['Hc', 'Hb'], 'Box', 'handfilled', True), ('cell_gh_abc_handfilled', 'Gh', ['Ha', 'Hb', 'Hc'], ['Ha', 'Hb', 'Hc'], 'Box', 'handfilled', True), ('cell_gh_acb_handfilled', 'Gh', ['Ha', 'Hc', 'Hb'], ['Ha', 'Hc', 'Hb'], 'Box', 'handfilled', True), ('cell_gh_bac_handfilled', 'Gh', ['Hb', 'Ha', 'Hc'], ['Hb', 'Ha', 'Hc'], 'Box', 'handfilled', True), ('cell_gh_bca_handfilled', 'Gh', ['Hb', 'Hc', 'Ha'], ['Hb', 'Hc', 'Ha'], 'Box', 'handfilled', True), ('cell_gh_cab_handfilled', 'Gh', ['Hc', 'Ha', 'Hb'], ['Hc', 'Ha', 'Hb'], 'Box', 'handfilled', True), ('cell_gh_cba_handfilled', 'Gh', ['Hc', 'Hb', 'Ha'], ['Hc', 'Hb', 'Ha'], 'Box', 'handfilled', True)]
 
 
+IMPLSYNTAX_SRC = r'''
+// ---- hand-written cells: every way of writing the trait lists of cglue_impl_group! (trailing comma, unbraced single trait, empty
+// list, 3- and 4-argument form with equal / smaller / larger / empty forward lists)
+#[cglue_trait]
+#[cglue_forward]
+pub trait Ym { fn ym(&self) -> u64; }
+#[cglue_trait]
+#[cglue_forward]
+pub trait Ya { fn ya(&self) -> u64; }
+#[cglue_trait]
+#[cglue_forward]
+pub trait Yb { fn yb(&self) -> u64; }
+#[cglue_trait]
+#[cglue_forward]
+pub trait Yc { fn yc(&self) -> u64; }
+cglue_trait_group!(Gy, Ym, { Ya, Yb, Yc });
+macro_rules! y_probe {
+    ($g:ident, $base:expr, [$wa:expr, $wb:expr, $wc:expr], $what:expr, $how:expr) => {{
+        if $g.ym() != $base { return Err(("cast:mandatory".into(), format!("{} ({}): mandatory trait not callable", $what, $how))); }
+        let got = [check!($g impl Ya), check!($g impl Yb), check!($g impl Yc)];
+        if got != [$wa, $wb, $wc] { return Err(("cast:decision".into(), format!("{} ({}): check!(Ya, Yb, Yc) = {:?}, the lists enable {:?}", $what, $how, got, [$wa, $wb, $wc]))); }
+        if as_ref!($g impl Ya).map(|x| x.ya()) != (if $wa { Some($base + 1) } else { None }) { return Err(("cast:decision".into(), format!("{} ({}): as_ref!(Ya)", $what, $how))); }
+        if as_ref!($g impl Yb).map(|x| x.yb()) != (if $wb { Some($base + 2) } else { None }) { return Err(("cast:decision".into(), format!("{} ({}): as_ref!(Yb)", $what, $how))); }
+        if as_ref!($g impl Yc).map(|x| x.yc()) != (if $wc { Some($base + 3) } else { None }) { return Err(("cast:decision".into(), format!("{} ({}): as_ref!(Yc)", $what, $how))); }
+        if check!($g impl Ya + Yb + Yc) != ($wa && $wb && $wc) || check!($g impl Ya + Yc) != ($wa && $wc) { return Err(("cast:decision".into(), format!("{} ({}): check! of a set", $what, $how))); }
+        got
+    }};
+}
+macro_rules! y_type {
+    ($ty:ident) => {
+        pub struct $ty(pub u64);
+        impl Ym for $ty { fn ym(&self) -> u64 { self.0 * 10 } }
+        impl Ya for $ty { fn ya(&self) -> u64 { self.0 * 10 + 1 } }
+        impl Yb for $ty { fn yb(&self) -> u64 { self.0 * 10 + 2 } }
+        impl Yc for $ty { fn yc(&self) -> u64 { self.0 * 10 + 3 } }
+    };
+}
+macro_rules! impl_syntax {
+    ($ty:ident, $fname:ident, ($($args:tt)*), [$oa:expr, $ob:expr, $oc:expr], $what:expr) => {
+        y_type!($ty);
+        cglue_impl_group!($ty, Gy, $($args)*);
+        pub fn $fname() -> Result<u64, (String, String)> {
+            let g = group_obj!($ty(7) as Gy);
+            let a = y_probe!(g, 70, [$oa, $ob, $oc], $what, "owned object");
+            let mut t = $ty(8);
+            let g = group_obj!(&mut t as Gy);
+            let b = y_probe!(g, 80, [$oa, $ob, $oc], $what, "object by mutable reference");
+            Ok(digest(&(a, b)))
+        }
+    };
+    ($ty:ident, $fname:ident, ($($args:tt)*), [$oa:expr, $ob:expr, $oc:expr], [$fa:expr, $fb:expr, $fc:expr], $what:expr) => {
+        y_type!($ty);
+        cglue_impl_group!($ty, Gy, $($args)*);
+        pub fn $fname() -> Result<u64, (String, String)> {
+            let g = group_obj!($ty(7) as Gy);
+            let a = y_probe!(g, 70, [$oa, $ob, $oc], $what, "owned object");
+            let mut t = $ty(9);
+            let g: GyBaseBox<'_, cglue::forward::Fwd<&mut $ty>> = From::from(cglue::forward::Fwd(&mut t));
+            let b = y_probe!(g, 90, [$fa, $fb, $fc], $what, "forwarded object Fwd<&mut T>");
+            Ok(digest(&(a, b)))
+        }
+    };
+}
+impl_syntax!(YsTrail2, cell_gy_trail2_implsyntax, ({ Ya, Yb, }), [true, true, false], "group Gy {Ya,Yb,Yc}: cglue_impl_group!(T, Gy, { Ya, Yb, })");
+impl_syntax!(YsTrail1, cell_gy_trail1_implsyntax, ({ Yc, }), [false, false, true], "group Gy {Ya,Yb,Yc}: cglue_impl_group!(T, Gy, { Yc, })");
+impl_syntax!(YsTrail3, cell_gy_trail3_implsyntax, ({ Ya, Yb, Yc, }), [true, true, true], "group Gy {Ya,Yb,Yc}: cglue_impl_group!(T, Gy, { Ya, Yb, Yc, })");
+impl_syntax!(YsUnbraced, cell_gy_unbraced_implsyntax, (Yb), [false, true, false], "group Gy {Ya,Yb,Yc}: cglue_impl_group!(T, Gy, Yb)");
+impl_syntax!(YsEmpty, cell_gy_empty_implsyntax, ({}), [false, false, false], "group Gy {Ya,Yb,Yc}: cglue_impl_group!(T, Gy, {})");
+impl_syntax!(YsPlain2, cell_gy_plain2_implsyntax, ({ Ya, Yc }), [true, false, true], "group Gy {Ya,Yb,Yc}: cglue_impl_group!(T, Gy, { Ya, Yc })");
+impl_syntax!(YsFwdEmpty, cell_gy_fwd_empty_implsyntax, ({ Ya, Yb }, {}), [true, true, false], [false, false, false], "group Gy {Ya,Yb,Yc}: cglue_impl_group!(T, Gy, { Ya, Yb }, {})");
+impl_syntax!(YsFwdPart, cell_gy_fwd_part_implsyntax, ({ Ya, Yb }, { Yb }), [true, true, false], [false, true, false], "group Gy {Ya,Yb,Yc}: cglue_impl_group!(T, Gy, { Ya, Yb }, { Yb })");
+impl_syntax!(YsFwdMore, cell_gy_fwd_more_implsyntax, ({ Ya }, { Ya, Yc }), [true, false, false], [true, false, true], "group Gy {Ya,Yb,Yc}: cglue_impl_group!(T, Gy, { Ya }, { Ya, Yc })");
+impl_syntax!(YsFwdTrail, cell_gy_fwd_trail_implsyntax, ({ Ya, Yb, }, { Yc, }), [true, true, false], [false, false, true], "group Gy {Ya,Yb,Yc}: cglue_impl_group!(T, Gy, { Ya, Yb, }, { Yc, })");
+impl_syntax!(YsFwdOnly, cell_gy_fwd_only_implsyntax, ({}, { Ya }), [false, false, false], [true, false, false], "group Gy {Ya,Yb,Yc}: cglue_impl_group!(T, Gy, {}, { Ya })");
+impl_syntax!(YsFwdAllTrail, cell_gy_fwd_all_trail_implsyntax, ({ Ya, Yb, Yc, }, { Ya, Yb, Yc, }), [true, true, true], [true, true, true], "group Gy {Ya,Yb,Yc}: cglue_impl_group!(T, Gy, { Ya, Yb, Yc, }, { Ya, Yb, Yc, })");
+'''
+IMPLSYNTAX_CELLS = [('cell_gy_trail2_implsyntax', 'Gy', ['Ya', 'Yb'], ['Ya', 'Yb'], 'Box', 'implsyntax', True), ('cell_gy_trail1_implsyntax', 'Gy', ['Yc'], ['Yc'], 'Box', 'implsyntax', True), ('cell_gy_trail3_implsyntax', 'Gy', ['Ya', 'Yb', 'Yc'], ['Ya', 'Yb', 'Yc'], 'Box', 'implsyntax', True), ('cell_gy_unbraced_implsyntax', 'Gy', ['Yb'], ['Yb'], 'Box', 'implsyntax', True), ('cell_gy_empty_implsyntax', 'Gy', [], [], 'Box', 'implsyntax', True), ('cell_gy_plain2_implsyntax', 'Gy', ['Ya', 'Yc'], ['Ya', 'Yc'], 'Box', 'implsyntax', True), ('cell_gy_fwd_empty_implsyntax', 'Gy', ['Ya', 'Yb'], ['Ya', 'Yb'], 'Box+Fwd', 'implsyntax', True), ('cell_gy_fwd_part_implsyntax', 'Gy', ['Ya', 'Yb'], ['Ya', 'Yb'], 'Box+Fwd', 'implsyntax', True), ('cell_gy_fwd_more_implsyntax', 'Gy', ['Ya'], ['Ya'], 'Box+Fwd', 'implsyntax', True), ('cell_gy_fwd_trail_implsyntax', 'Gy', ['Ya', 'Yb'], ['Ya', 'Yb'], 'Box+Fwd', 'implsyntax', True), ('cell_gy_fwd_only_implsyntax', 'Gy', [], [], 'Box+Fwd', 'implsyntax', True), ('cell_gy_fwd_all_trail_implsyntax', 'Gy', ['Ya', 'Yb', 'Yc'], ['Ya', 'Yb', 'Yc'], 'Box+Fwd', 'implsyntax', True)]
+
+
 def family_crate(out_dir, crate, gname, mandatory_list, optional, aliases=None, containers=("Box", "Mut", "Ref"), fwd_of=None, extra=None):
     cells, layouts = [], []
     mand = mandatory_list[0] if len(mandatory_list) == 1 else None
@@ -527,7 +606,7 @@ def main():
     # trait names whose case-sensitive order differs from the case-folded one
     add(family_crate(out_dir, "hg_gcase", "Gcase", ["Gm"], ["Tag", "TLB", "KeyDumper", "KVStore"][:3]))
     # 4-argument cglue_impl_group!: the Fwd<&mut T> wrapper enables a strict subset (all but the last) of what the type enables
-    add(family_crate(out_dir, "hg_gfwd", "Gfwd", ["Fm"], ["Fa", "Fb"], fwd_of=lambda en: en[:-1]))
+    add(family_crate(out_dir, "hg_gfwd", "Gfwd", ["Fm"], ["Fa", "Fb"], fwd_of=lambda en: en[:-1], extra=(IMPLSYNTAX_SRC, IMPLSYNTAX_CELLS)))
     print("generated %d cast cells, %d layout cells" % tuple(tot))
 
 
